@@ -613,6 +613,8 @@ def directed():
         # _ARGS / _KWARGS named by the condition
         ("args-named", ["cmp", call("len", N("_ARGS")), [[">", K(5)]]], {}, {"extra_args": [["x", 1], ["y", 2]]}),
         ("kwargs-named", ["cmp", call("len", N("_KWARGS")), [[">", K(5)]]], {}, {"extra_args": [["x", 1], ["y", 2]], "kw_order": True}),
+        ("kwargs-named-three", ["cmp", call("len", N("_KWARGS")), [[">", K(5)]]], {},
+         {"extra_args": [["alpha", 3], ["beta", 2], ["gamma", 1]], "kw_order": True}),
         # a function passed as an argument, a generator as the value of the condition
         ("fn-arg", ["cmp", N("x"), [[">", K(5)]]], {"x": 1}, {"extra_args": [["cb", {"fn": "inv"}]]}),
     ]
